@@ -185,35 +185,87 @@ func checkHistory(h []Rec, nkeys int, timeout time.Duration) CheckResult {
 		case porcupine.Unknown:
 			res.Inconclusive++
 		case porcupine.Illegal:
-			// name the stage at which the history stops being linearizable
-			stage := "reopen"
-			if !legalUpTo(ops, kept, 0, timeout) {
-				stage = "concurrent"
-			} else if !legalUpTo(ops, kept, 1, timeout) {
-				stage = "quiet"
-			}
-			sig := "not-linearizable@" + stage
-			if stage != "concurrent" {
-				sig += ":" + transition(kept, stage)
-			}
-			failed := ""
-			for _, r := range perKey[k] {
-				if r.Op != "get" && r.Err != "" {
-					if failed == "" && r.Op == "del" {
-						sig += "+failed-delete-on-key"
-					}
-					failed += r.String() + "; "
-				}
-			}
-			if failed != "" {
-				failed = " writes on the key that reported an error (modelled as no effect): " + failed
-			}
-			res.V = &Verdict{Sig: sig,
-				Msg: fmt.Sprintf("the history of key k%d (%d operations) has no linearization; %s%s", k, len(ops), explain(kept, stage), failed)}
+			res.V = diagnose(k, ops, kept, perKey[k], timeout)
 			return res
 		}
 	}
 	return res
+}
+
+// diagnose names the point at which the history of one key stops being
+// linearizable. The parts of a case are separated by quiescent points (all
+// clients stopped, reads by the harness, close, reopen), so the history up to
+// any harness read is itself a complete history.
+func diagnose(k int, ops []porcupine.Operation, kept []*Rec, allOnKey []*Rec, timeout time.Duration) *Verdict {
+	idx := make([]int, len(kept))
+	for i := range idx {
+		idx[i] = i
+	}
+	sort.Slice(idx, func(a, b int) bool { return kept[idx[a]].Call < kept[idx[b]].Call })
+	legal := func(n int) bool { // first n operations in invocation order
+		sub := make([]porcupine.Operation, 0, n)
+		for _, i := range idx[:n] {
+			sub = append(sub, ops[i])
+		}
+		return porcupine.CheckOperationsTimeout(registerModel, sub, timeout) != porcupine.Illegal
+	}
+	stage, upto := "concurrent", len(idx)
+	var culprit *Rec
+	for n, i := range idx {
+		r := kept[i]
+		if r.C >= 0 {
+			continue
+		}
+		if !legal(n) {
+			upto = n
+			break
+		}
+		if !legal(n + 1) {
+			stage, upto, culprit = stageOf(r), n+1, r
+			break
+		}
+	}
+	sig := "not-linearizable@" + stage
+	if culprit != nil {
+		// how does the harness read differ from the read before it
+		var prev *Rec
+		for _, i := range idx[:upto-1] {
+			if r := kept[i]; r.Op == "get" && (prev == nil || r.Ret > prev.Ret) {
+				prev = r
+			}
+		}
+		switch {
+		case prev == nil:
+		case culprit.R == 0 && prev.R != 0:
+			sig += ":present->absent"
+		case culprit.R != 0 && prev.R == 0:
+			sig += ":absent->present"
+		case culprit.R != prev.R:
+			sig += ":value-changed"
+		default:
+			sig += ":same-as-previous-read"
+		}
+	}
+	failed := ""
+	for _, r := range allOnKey {
+		if r.Op != "get" && r.Err != "" {
+			if failed == "" && r.Op == "del" {
+				sig += "+failed-delete-on-key"
+			}
+			failed += r.String() + "; "
+		}
+	}
+	if failed != "" {
+		failed = " Writes on the key that reported an error (modelled as no effect): " + failed
+	}
+	tail := ""
+	for n, i := range idx[:upto] {
+		if n >= upto-14 {
+			tail += kept[i].String() + "; "
+		}
+	}
+	return &Verdict{Sig: sig, Msg: fmt.Sprintf("the history of key k%d has no linearization once its first %d operations (of %d, in invocation order) are considered; the last of them: %s%s",
+		k, upto, len(idx), tail, failed)}
 }
 
 func clientID(c int) int {
@@ -231,62 +283,4 @@ func stageOf(r *Rec) string {
 		return "reopen"
 	}
 	return "concurrent"
-}
-
-// legalUpTo reports whether the history restricted to the client operations
-// (limit 0), plus the quiescent reads (limit 1), is linearizable (a timeout
-// counts as legal).
-func legalUpTo(ops []porcupine.Operation, recs []*Rec, limit int, timeout time.Duration) bool {
-	var sub []porcupine.Operation
-	for i, r := range recs {
-		if r.C >= 0 || (r.C == -1 && limit >= 1) {
-			sub = append(sub, ops[i])
-		}
-	}
-	return porcupine.CheckOperationsTimeout(registerModel, sub, timeout) != porcupine.Illegal
-}
-
-// transition names how the value seen by the reads of the failing stage
-// differs from the value seen by the stage before it.
-func transition(recs []*Rec, stage string) string {
-	cur, prev := -1, 0 // pseudo clients: quiet (-1) vs. the last client read; reopen (-2) vs. quiet
-	if stage == "reopen" {
-		cur, prev = -2, -1
-	}
-	var a, b *Rec
-	for _, r := range recs {
-		if r.Op != "get" {
-			continue
-		}
-		if r.C == cur {
-			a = r
-		} else if (prev == -1 && r.C == -1) || (prev == 0 && r.C >= 0 && (b == nil || r.Ret > b.Ret)) {
-			b = r
-		}
-	}
-	switch {
-	case a == nil || b == nil:
-		return "unknown"
-	case a.R == 0 && b.R != 0:
-		return "present->absent"
-	case a.R != 0 && b.R == 0:
-		return "absent->present"
-	case a.R != b.R:
-		return "value-changed"
-	}
-	return "same-value"
-}
-
-// explain renders the tail of a key history for the failure message.
-func explain(recs []*Rec, stage string) string {
-	s := append([]*Rec(nil), recs...)
-	sort.Slice(s, func(i, j int) bool { return s[i].Call < s[j].Call })
-	// show the reads of the named stage and the last few writes
-	out := ""
-	n := 0
-	for i := len(s) - 1; i >= 0 && n < 10; i-- {
-		out = s[i].String() + "; " + out
-		n++
-	}
-	return "last operations on the key: " + out
 }
